@@ -2763,6 +2763,10 @@ class PerspConvex(Convex):
         string = f"{shapes} perspective expression{suffix} of the {xtype}"
         return string
 
+    def sum(self, axis=None):
+
+        raise ValueError('Perspective functions do not support the sum() method.')
+
     def __neg__(self):
 
         return PerspConvex(self.affine_in, self.affine_scale, -self.affine_out,
